@@ -93,15 +93,16 @@ def Known (k : Nat) (iv : IV) (dg : Digest × Digest) (c0 : Nat) (items : List I
 
 /-- A seal under the session key that did NOT come from this sender — in a two-party session:
     one of the receiver's own outgoing frames, reflected back at it. It carries a nonce of the
-    other direction (never one of the sender's `iv.nonce a`) and, if it is a first frame, the digest
-    pair in the *receiver's* send order `rdg' ≠ rdg` (what the receiver expects from its peer). -/
-def Foreign (iv : IV) (rdg : Digest × Digest) (c : Sealed) : Prop :=
-  (∀ a, c.nonce ≠ iv.nonce a) ∧ c.aad.digests ≠ some rdg
+    other direction (never one of the sender's `iv.nonce a`), and if it carries digests at all (a
+    first frame) its nonce is the receiver's own base IV `ownIV`, which the receiver refuses to
+    accept as a peer's IV (fix D16). -/
+def Foreign (iv ownIV : IV) (c : Sealed) : Prop :=
+  (∀ a, c.nonce ≠ iv.nonce a) ∧ (c.aad.digests ≠ none → c.nonce = ownIV.nonce 0)
 
-def AdvFrame (k : Nat) (iv : IV) (dg rdg : Digest × Digest) (c0 : Nat) (items : List Item) (g : WireFrame) : Prop :=
+def AdvFrame (k : Nat) (iv : IV) (dg : Digest × Digest) (ownIV : IV) (c0 : Nat) (items : List Item) (g : WireFrame) : Prop :=
   match g.body with
   | .raw _ => True
-  | .ct ivo c => (∀ i, ivo = some i → i.w0 < 2^32) ∧ (c.key = k → Known k iv dg c0 items c ∨ Foreign iv rdg c)
+  | .ct ivo c => (∀ i, ivo = some i → i.w0 < 2^32) ∧ (c.key = k → Known k iv dg c0 items c ∨ Foreign iv ownIV c)
 
 /-- Receiver-side invariant: `m` honest frames accepted so far. -/
 structure RecvInv (r : Stream) (k : Nat) (iv : IV) (c0 m : Nat) : Prop where
@@ -126,10 +127,10 @@ theorem nonce_inj {iv : IV} {a b : Nat} (ha : a < 2^32) (hb : b < 2^32)
 
 /-- The crux at the `decryptDataWithAAD` level: whatever body the adversary presents, if it
     opens then it is the next honest seal, and the base IV is the sender's. -/
-theorem open_only_next {r : Stream} {k iv dg rdg c0 m items g ivr p}
+theorem open_only_next {r : Stream} {k iv dg ownIV c0 m items g ivr p}
     (hiv : iv.w0 < 2^32) (hlim : c0 + items.length ≤ counterLimit) (hm : m ≤ items.length)
-    (hr : RecvInv r k iv c0 m) (hdg : c0 + m = 0 → (r.dig.fr, r.dig.fs) = rdg)
-    (hg : AdvFrame k iv dg rdg c0 items g)
+    (hr : RecvInv r k iv c0 m) (hown : c0 + m = 0 → r.encIV = ownIV ∧ ownIV.w0 < 2^32)
+    (hg : AdvFrame k iv dg ownIV c0 items g)
     (h : r.openBody k g = .ok (ivr, p)) :
     ∃ it, items[m]? = some it ∧ g.flag = it.flag ∧ p = it.plain ∧ ivr = iv := by
   obtain ⟨hk, he, hc, hf, hdiv⟩ := hr
@@ -152,13 +153,27 @@ theorem open_only_next {r : Stream} {k iv dg rdg c0 m items g ivr p}
             unfold AdvFrame at hg
             simp only [hb] at h hg
             simp only [hfin, Bool.false_eq_true, if_false] at h
+            by_cases hie : i = r.encIV
+            · rw [if_pos hie] at h; cases h
+            rw [if_neg hie] at h
             obtain ⟨hcond, hab⟩ := ite_ok h
             · obtain ⟨hck, hcn, hca⟩ := hcond
               obtain ⟨hiw, hkn⟩ := hg
-              have hnf : ¬ Foreign iv rdg c := by
+              have hnf : ¬ Foreign iv ownIV c := by
                 intro hf
-                apply hf.2
-                rw [hca, ← hdg hz]
+                have hne : c.aad.digests ≠ none := by rw [hca]; simp
+                have hn0 := hf.2 hne
+                obtain ⟨hoe, how⟩ := hown hz
+                apply hie
+                rw [hoe]
+                rw [hcn] at hn0
+                have hi := hiw i rfl
+                simp only [IV.nonce, IV.mk.injEq] at hn0
+                obtain ⟨h1, h2⟩ := hn0
+                cases i; cases ownIV
+                simp only [IV.mk.injEq] at *
+                simp only [Nat.reducePow] at *
+                exact ⟨by omega, h2⟩
               obtain ⟨j, it, hj, hcs⟩ := (hkn hck).resolve_right hnf
               have hi := hiw i rfl
               -- the AAD carries digests, so the seal is the sender's first one
@@ -203,7 +218,7 @@ theorem open_only_next {r : Stream} {k iv dg rdg c0 m items g ivr p}
             obtain ⟨hcond, hab⟩ := ite_ok h
             · obtain ⟨hck, hcn, hca⟩ := hcond
               obtain ⟨_, hkn⟩ := hg
-              have hnf : ¬ Foreign iv rdg c := by
+              have hnf : ¬ Foreign iv ownIV c := by
                 intro hf
                 apply hf.1 r.decCtr
                 rw [hcn, hdi]
@@ -232,10 +247,10 @@ theorem afterOpen_recvInv {r : Stream} {k iv c0 m} (hr : RecvInv r k iv c0 m) (b
 
 /-- Frame-level statement: if `ReceiveFrameWithEnd` accepts, it accepted the next honest frame —
     same end flag, same plaintext — and the receiver stays in step. Empty frames included. -/
-theorem recv_accepts_only_next {r r' : Stream} {k iv dg rdg c0 m items g d fl}
+theorem recv_accepts_only_next {r r' : Stream} {k iv dg ownIV c0 m items g d fl}
     (hiv : iv.w0 < 2^32) (hlim : c0 + items.length ≤ counterLimit) (hm : m ≤ items.length)
-    (hr : RecvInv r k iv c0 m) (hdg : c0 + m = 0 → (r.dig.fr, r.dig.fs) = rdg)
-    (hg : AdvFrame k iv dg rdg c0 items g)
+    (hr : RecvInv r k iv c0 m) (hdg : c0 + m = 0 → r.encIV = ownIV ∧ ownIV.w0 < 2^32)
+    (hg : AdvFrame k iv dg ownIV c0 items g)
     (h : r.recvFrameWithEnd g = .ok (r', d, fl)) :
     ∃ it, items[m]? = some it ∧ fl = it.flag ∧ d = it.plain ∧ RecvInv r' k iv c0 (m + 1) := by
   have hk := hr.key
@@ -262,13 +277,13 @@ def Item.op (it : Item) : SendOp := (it.plain, it.flag)
 
 /-- `ReceiveCompleteMessage` under attack: if it returns a message, the receiver consumed a run
     of consecutive honest frames ending in a complete one, and the message is their concatenation. -/
-theorem recvComplete_spec {k iv dg rdg c0 items}
+theorem recvComplete_spec {k iv dg ownIV c0 items}
     (hiv : iv.w0 < 2^32) (hlim : c0 + items.length ≤ counterLimit) :
     ∀ (w : List WireFrame) (r : Stream) (m : Nat) (acc : Bytes) r' msg w',
-      m ≤ items.length → RecvInv r k iv c0 m → (c0 + m = 0 → (r.dig.fr, r.dig.fs) = rdg) →
-      (∀ g ∈ w, AdvFrame k iv dg rdg c0 items g) →
+      m ≤ items.length → RecvInv r k iv c0 m → (c0 + m = 0 → r.encIV = ownIV ∧ ownIV.w0 < 2^32) →
+      (∀ g ∈ w, AdvFrame k iv dg ownIV c0 items g) →
       r.recvCompleteAux acc w = .ok (r', msg, w') →
-      ∃ m', m < m' ∧ m' ≤ items.length ∧ RecvInv r' k iv c0 m' ∧ (∀ g ∈ w', AdvFrame k iv dg rdg c0 items g) ∧
+      ∃ m', m < m' ∧ m' ≤ items.length ∧ RecvInv r' k iv c0 m' ∧ (∀ g ∈ w', AdvFrame k iv dg ownIV c0 items g) ∧
         messagesOf acc ((items.drop m).map Item.op) = msg :: messagesOf [] ((items.drop m').map Item.op) := by
   intro w
   induction w with
@@ -307,11 +322,11 @@ theorem recvComplete_spec {k iv dg rdg c0 items}
         · rw [if_neg h0] at h; cases h
 
 /-- The receive loop hands the application only a prefix of the messages that were sent. -/
-theorem deliver_prefix {k iv dg rdg c0 items}
+theorem deliver_prefix {k iv dg ownIV c0 items}
     (hiv : iv.w0 < 2^32) (hlim : c0 + items.length ≤ counterLimit) :
     ∀ (n : Nat) (r : Stream) (w : List WireFrame) (m : Nat),
-      m ≤ items.length → RecvInv r k iv c0 m → (c0 + m = 0 → (r.dig.fr, r.dig.fs) = rdg) →
-      (∀ g ∈ w, AdvFrame k iv dg rdg c0 items g) →
+      m ≤ items.length → RecvInv r k iv c0 m → (c0 + m = 0 → r.encIV = ownIV ∧ ownIV.w0 < 2^32) →
+      (∀ g ∈ w, AdvFrame k iv dg ownIV c0 items g) →
       Stream.deliverFuel n r w <+: messagesOf [] ((items.drop m).map Item.op) := by
   intro n
   induction n with
